@@ -342,3 +342,51 @@ Section SUnzipOnce.
            (lift_op (@sboth _ _ p0 p1 (sflush p0) (sflush p1)))
            sclose_once.
 End SUnzipOnce.
+
+(* ------------------------------------------------------------------ for_each.rs / try_for_each.rs *)
+
+(* terminal sinks: always Ready; the closure's calls (and, for try_for_each, its Ok/Err answers)
+   are the log *)
+Definition stry_for_each {A} (fails : A -> bool) : sink A :=
+  mksink (SSt := list (sev A))
+         (fun s => (RDone, s))
+         (fun a s => let ok := negb (fails a) in Some (ok, SSend a ok :: s))
+         (fun s => (RDone, s))
+         (fun s => (RDone, s)).
+Definition sfor_each (A : Type) : sink A := stry_for_each (fun _ : A => false).
+
+(* ------------------------------------------------------------------ send_iter.rs *)
+
+Section SendIter.
+  Context {A : Type} (nx : sink A).
+  (* one poll of the SendIter future: loop { ready!(poll_ready)?; next item -> start_send? | break };
+     poll_flush.  State: the iterator's remaining items, the sink. *)
+  Fixpoint si_poll (items : list A) (s : SSt nx) : res * (list A * SSt nx) :=
+    let (r, s1) := sready nx s in
+    match r with
+    | RDone =>
+      match items with
+      | [] => let (r2, s2) := sflush nx s1 in (r2, ([], s2))
+      | x :: it =>
+        match ssend nx x s1 with
+        | None => (RErr, (it, s1))
+        | Some (true, s2) => si_poll it s2
+        | Some (false, s2) => (RErr, (it, s2))
+        end
+      end
+    | RPend => (RPend, (items, s1))
+    | RErr => (RErr, (items, s1))
+    end.
+
+  (* poll the future until it is Ready; trace of poll results, newest first *)
+  Fixpoint si_drive (fuel : nat) (items : list A) (s : SSt nx) (tr : list res)
+    : soutcome * list res * (list A * SSt nx) :=
+    match fuel with
+    | 0 => (SOutOfFuel, tr, (items, s))
+    | S k => match si_poll items s with
+             | (RDone, st) => (SFinished, RDone :: tr, st)
+             | (RErr, st) => (SFailed, RErr :: tr, st)
+             | (RPend, (it', s')) => si_drive k it' s' (RPend :: tr)
+             end
+    end.
+End SendIter.
